@@ -207,8 +207,8 @@ func (d *Downstream) run() error {
 	eg, ctx := errgroup.WithContext(ctx)
 
 	eg.Go(func() error {
-		defer d.eventDispatcher.cond.Broadcast()
-		defer d.state.cond.Broadcast()
+		defer wake(d.eventDispatcher.cond)
+		defer wake(d.state.cond)
 		<-ctx.Done()
 		return nil
 	})
